@@ -1,6 +1,7 @@
 //! C05 — LCOV fixed point. (a) in-process: parse_lcov(output_lcov(rs)) has the observables of rs,
 //! a second export equals the first as a record set, and the Lean byte machine reads the written
-//! bytes to the same result; (b) CLI chains r1 → r2 → r3 with filtering and path options.
+//! bytes to the same result; (b) CLI chains r1 → r2 → r3 with filtering and path options
+//! (src/chains.rs).
 use corrlib::gen::*;
 use corrlib::lcov::show_outcome;
 use corrlib::pipe::*;
@@ -8,10 +9,10 @@ use corrlib::*;
 use grcov::{output_lcov, parse_lcov, CovResult};
 use serde_json::json;
 use std::path::PathBuf;
-use std::time::Duration;
 
 mod climodel;
 mod bytes_all;
+mod chains;
 
 fn write_lcov(rs: &[(PathBuf, PathBuf, CovResult)], path: &std::path::Path) -> Vec<u8> {
     output_lcov(rs, Some(path), false);
@@ -21,7 +22,10 @@ fn write_lcov(rs: &[(PathBuf, PathBuf, CovResult)], path: &std::path::Path) -> V
 pub fn run(rep: &mut Report) {
     rep.rule = "(a) result sets of 0-6 files (counts up to 2^64-1, branch vectors of length 1-5, function names \
                 with commas/non-ASCII) written by output_lcov and read back, twice; (b) CLI chains of three \
-                export/import rounds over generated inputs with -s/-p/--ignore/--keep-only/--filter variants; \
+                export/import rounds over generated inputs whose SF paths are respelled (./, //, backslash, name/../, \
+                source-dir name in front, absolute, missing, Java/Kotlin partial paths) with -s, -p relative / absolute \
+                below the source dir / equal to it / elsewhere, --ignore, --keep-only, --filter covered|uncovered, \
+                --ignore-not-existing, --excl-line/-start/-stop with marker lines on disk, --branch on or off; \
                 non-trivial = the set has branches and functions (a) or a path option is used (b); \
                 distinct = distinct written bytes / distinct (inputs, options)"
         .to_string();
@@ -89,18 +93,15 @@ pub fn run(rep: &mut Report) {
             if summ(&bytes) != summ(&bytes2) {
                 rep.fail("oracle", None, "summary lines differ after a round trip".into(), case.clone());
             }
-            // C05_second_export_equals_first: byte for byte (function records come out in hash-map
-            // order, which the model takes as a parameter: exact bytes only with <= 1 function per file)
-            if rs.iter().all(|r| r.2.functions.len() <= 1) {
-                rep.count("second_export.byte_equal_checked");
-                if bytes2 != bytes {
-                    rep.fail("oracle", None, "second export differs from the first byte for byte".into(),
-                             json!({"case": case, "second_hex": hex(&bytes2)}));
-                }
-            } else if bytes2 == bytes {
-                rep.count("second_export.byte_equal_many_functions");
-            } else {
-                rep.count("second_export.function_order_differs");
+            // C05_second_export_equals_first: byte for byte, whatever the number of functions per
+            // file (since 73c9152 `output_lcov` lists them in name order, not in hash-map order)
+            rep.count("second_export.byte_equal_checked");
+            if rs.iter().any(|r| r.2.functions.len() >= 2) {
+                rep.count("second_export.byte_equal_checked.2+_functions_in_a_file");
+            }
+            if bytes2 != bytes {
+                rep.fail("oracle", None, "second export differs from the first byte for byte".into(),
+                         json!({"case": case, "second_hex": hex(&bytes2)}));
             }
             // C05_iterate: a second re-import returns what the first returned
             let b3 = bytes2.clone();
@@ -113,13 +114,11 @@ pub fn run(rep: &mut Report) {
         }
         reqs.push(format!("lcov.parse 1 {}", hex(&bytes)));
         impls.push(got);
-        // byte-for-byte tie of the writer model (hash-map order of functions is not modelled:
-        // only sets with at most one function per file)
-        if rs.iter().all(|r| r.2.functions.len() <= 1) {
-            reqs.push(format!("lcov.print {}", show_results_ordered(&want)).trim_end().to_string());
-            impls.push(hex(&bytes));
-            rep.count("writer.byte_tie");
-        }
+        // byte-for-byte tie of the writer model on every set: the functions are sent in the order
+        // the harness's own map iterates them (never read off the output); `Cli.outputLcov` sorts
+        reqs.push(bytes_all::request(&rs, &|n: &str| n.to_string()));
+        impls.push(hex(&bytes));
+        rep.count("writer.byte_tie");
     }
     let model = run_model(&reqs, &rep.workdir, "c05");
     for i in 0..reqs.len() {
@@ -128,218 +127,14 @@ pub fn run(rep: &mut Report) {
             rep.fail(
                 "disagreement",
                 None,
-                "parse_lcov / output_lcov differ from Lcov.parse / Lcov.printLcov on a written report".into(),
-                json!({"op": if reqs[i].starts_with("lcov.print") { "lcov.print" } else { "lcov.parse" }, "branch": true, "request": reqs[i],
+                "parse_lcov / output_lcov differ from Lcov.parse / Cli.outputLcov on a written report".into(),
+                json!({"op": if reqs[i].starts_with("c05.output_lcov") { "c05.output_lcov" } else { "lcov.parse" }, "branch": true, "request": reqs[i],
                        "input_hex": reqs[i].split(' ').last().unwrap(), "impl": impls[i], "model": model[i]}),
             );
         }
     }
-    cli_chains(rep, &mut rng);
+    chains::run(rep, &mut rng);
     bytes_all::run(rep);
-}
-
-fn cli_chains(rep: &mut Report, rng: &mut Rng) {
-    let n = rep.budget(40, 15);
-    // (request, real report, case) of every run that the model of one run (`Cli.run`) covers
-    let mut cli_reqs: Vec<(String, String, serde_json::Value)> = vec![];
-    for c in 0..n {
-        let dir = rep.workdir.join(format!("chain{}", c));
-        let _ = std::fs::remove_dir_all(&dir);
-        let src = dir.join("srcroot");
-        // a source tree in which some of the reported files exist
-        for f in ["src/a.c", "src/b.c", "lib/c.rs", "d.cpp"] {
-            if rng.chance(3, 4) {
-                let p = src.join(f);
-                std::fs::create_dir_all(p.parent().unwrap()).unwrap();
-                std::fs::write(&p, "int x;\n".repeat(50)).unwrap();
-            }
-        }
-        std::fs::create_dir_all(&src).unwrap();
-        let k = rng.range(1, 5) as usize;
-        let mut inputs = gen_inputs(rng, k);
-        // paths whose leading component repeats the prefix dir ("src") or the source dir's own
-        // name ("srcroot"): stripping that component is not idempotent (known findings below)
-        for (nested, tag) in [("src/src/z.c", "nested.prefix"), ("srcroot/srcroot/q.c", "nested.srcdir")] {
-            if rng.chance(1, 5) {
-                let bytes = format!("TN:\nSF:{}\nDA:1,{}\nDA:7,0\nend_of_record\n", nested, rng.range(1, 9)).into_bytes();
-                let parsed = parse_lcov(bytes.clone(), true).expect("plain tracefile");
-                inputs.push(Input { name: format!("in{}.info", inputs.len()), format: "Info", id: fnv_id("Info", &bytes), bytes, parsed });
-                rep.count(&format!("chain.{}", tag));
-            }
-        }
-        write_inputs(&dir.join("in"), &inputs);
-        let mut opts: Vec<String> = vec!["-t".into(), "lcov".into(), "--branch".into(), "--no-demangle".into()];
-        let mut used = vec![];
-        if rng.chance(1, 2) {
-            opts.extend(["-s".to_string(), src.to_str().unwrap().to_string()]);
-            used.push("-s");
-        }
-        if rng.chance(1, 4) {
-            opts.extend(["-p".to_string(), "src".to_string()]);
-            used.push("-p");
-        }
-        if rng.chance(1, 3) {
-            opts.extend(["--ignore".to_string(), "lib/*".to_string()]);
-            used.push("--ignore");
-        }
-        if rng.chance(1, 4) {
-            opts.extend(["--keep-only".to_string(), "*.c".to_string()]);
-            used.push("--keep-only");
-        }
-        if rng.chance(1, 4) {
-            opts.extend(["--filter".to_string(), "covered".to_string()]);
-            used.push("--filter");
-        }
-        if used.contains(&"-s") && rng.chance(1, 3) {
-            opts.push("--ignore-not-existing".into());
-            used.push("--ignore-not-existing");
-        }
-        rep.case(&format!("chain {} {:?}", c, opts), !used.is_empty());
-        for u in &used {
-            rep.count(&format!("chain.opt.{}", u));
-        }
-        let mut prev_args: Vec<String> = vec!["in".into()];
-        let mut reports: Vec<String> = vec![];
-        let mut ok = true;
-        for round in 0..3 {
-            let cfg = RunCfg {
-                dir: &dir,
-                args: prev_args.clone(),
-                threads: *rng.pick(&[1usize, 2, 3]),
-                perturb: None,
-                fault: None,
-                limit: Duration::from_secs(60),
-                extra: opts.clone(),
-            };
-            let out = run_grcov(&cfg);
-            let case = json!({"op": "chain", "round": round, "opts": opts,
-                "inputs": inputs.iter().map(|i| json!({"name": i.name, "hex": hex(&i.bytes)})).collect::<Vec<_>>()});
-            if out.exit != Some(0) {
-                // an empty report fed back is "No input files found"? a report always has TN: so it is found
-                rep.fail("oracle", None, format!("round {} exited with {:?}: {}", round, out.exit, out.stderr.lines().last().unwrap_or("")), case);
-                ok = false;
-                break;
-            }
-            // the same run through the Lean model (lcov inputs only: round 0 may hold JaCoCo files)
-            let model_inputs: Option<Vec<Vec<u8>>> = if round == 0 {
-                if inputs.iter().all(|i| i.format == "Info") {
-                    Some(inputs.iter().map(|i| i.bytes.clone()).collect())
-                } else {
-                    None
-                }
-            } else {
-                Some(vec![reports[round - 1].clone().into_bytes()])
-            };
-            if let Some(ins) = model_inputs {
-                let ccfg = climodel::CliCfg {
-                    branch: true,
-                    source_dir: if used.contains(&"-s") { Some(src.canonicalize().unwrap().to_str().unwrap().to_string()) } else { None },
-                    prefix_dir: if used.contains(&"-p") { Some("src".to_string()) } else { None },
-                    ignore: if used.contains(&"--ignore") { vec!["lib/*".to_string()] } else { vec![] },
-                    keep: if used.contains(&"--keep-only") { vec!["*.c".to_string()] } else { vec![] },
-                    ignore_not_existing: used.contains(&"--ignore-not-existing"),
-                    filter: if used.contains(&"--filter") { Some(true) } else { None },
-                };
-                let req = climodel::cli_request(&ccfg, &dir.canonicalize().unwrap(), &ins);
-                rep.count(&format!("cli.model.round{}", round));
-                cli_reqs.push((req, out.stdout.clone(), json!({"op": "cli.run", "round": round, "opts": opts,
-                    "inputs_hex": ins.iter().map(|b| hex(b)).collect::<Vec<_>>()})));
-            }
-            let name = format!("r{}.info", round + 1);
-            std::fs::write(dir.join(&name), &out.stdout).unwrap();
-            prev_args = vec![name];
-            reports.push(out.stdout);
-        }
-        if !ok {
-            continue;
-        }
-        let dec: Vec<Result<String, String>> = reports.iter().map(|r| decode_lcov_report(r).map(|m| show_map(&m))).collect();
-        let summ = |r: &str| -> Vec<String> {
-            let mut v: Vec<String> = r.lines().filter(|l| ["LF:", "LH:", "BRF:", "BRH:", "FNF:", "FNH:"].iter().any(|p| l.starts_with(p))).map(|s| s.to_string()).collect();
-            v.sort();
-            v
-        };
-        if dec[0].is_err() || dec[0] != dec[1] || dec[1] != dec[2] || summ(&reports[0]) != summ(&reports[1]) {
-            // named matchers: the ONLY difference between consecutive rounds is that a record whose
-            // path begins with the relative prefix dir's name (with -p src) or with the source
-            // dir's own last component (with -s …/srcroot, file not on disk) lost that component
-            let finding = restrip_finding(&reports, &used);
-            rep.fail(
-                "oracle",
-                finding,
-                "re-importing grcov's own lcov report with the same options does not reproduce it".into(),
-                json!({"op": "chain", "opts": opts, "r1": reports[0], "r2": reports[1], "r3": reports[2],
-                    "inputs": inputs.iter().map(|i| json!({"name": i.name, "hex": hex(&i.bytes)})).collect::<Vec<_>>()}),
-            );
-        }
-    }
-    // ---- tie of the model of one run to the real binary ---------------------------------------------
-    let reqs: Vec<String> = cli_reqs.iter().map(|x| x.0.clone()).collect();
-    let answers = run_model(&reqs, &rep.workdir, "cli");
-    for (i, (req, real, case)) in cli_reqs.iter().enumerate() {
-        rep.case(&format!("cli.run {}", fnv64(req.as_bytes())), true);
-        if let Some(what) = climodel::compare(&answers[i], real) {
-            rep.disagreements_checked += 1;
-            let mut cj = case.clone();
-            cj["request"] = json!(req);
-            cj["real"] = json!(real);
-            cj["model"] = json!(answers[i]);
-            rep.fail("disagreement", None,
-                format!("a grcov run differs from the Lean model Cli.run (theorems C05_cli_* / C06_cli_* no longer transfer): {}", what), cj);
-        }
-    }
-}
-
-/// `Some(finding)` iff every round-to-round difference is explained by one of the two recorded
-/// re-stripping behaviours and by nothing else (data of the renamed records unchanged).
-fn restrip_finding(reports: &[String], used: &[&str]) -> Option<&'static str> {
-    let maps: Vec<_> = reports.iter().map(|r| decode_lcov_report(r)).collect();
-    if maps.iter().any(|m| m.is_err()) {
-        return None;
-    }
-    let maps: Vec<_> = maps.into_iter().map(|m| m.unwrap()).collect();
-    let mut which: Option<&'static str> = None;
-    for w in maps.windows(2) {
-        let (a, b) = (&w[0], &w[1]);
-        if a == b {
-            continue;
-        }
-        // rename the keys of `a` by one re-strip and require equality with `b`
-        let mut explained = false;
-        for (comp, opt, id) in [("src/", "-p", "C05-relative-prefix-restripped"), ("srcroot/", "-s", "C05-source-dir-name-restripped")] {
-            if !used.contains(&opt) {
-                continue;
-            }
-            // a record that is unchanged in `b` keeps its path (a file that exists on disk is
-            // canonicalised first and is not stripped); every other one must reappear stripped
-            let mut renamed = std::collections::BTreeMap::new();
-            let mut clash = false;
-            let mut stripped = 0;
-            for (k, v) in a.iter() {
-                let nk = if b.get(k) == Some(v) {
-                    k.to_string()
-                } else {
-                    stripped += 1;
-                    k.strip_prefix(comp).unwrap_or(k).to_string()
-                };
-                if renamed.insert(nk, v.clone()).is_some() {
-                    clash = true;
-                }
-            }
-            if !clash && stripped > 0 && &renamed == b {
-                explained = true;
-                if which.is_some() && which != Some(id) {
-                    return None;
-                }
-                which = Some(id);
-                break;
-            }
-        }
-        if !explained {
-            return None;
-        }
-    }
-    which
 }
 
 pub fn replay(rep: &mut Report, case: &serde_json::Value) {
